@@ -149,8 +149,16 @@ PathIdxPrograms(maxn) ==
   IN {TPath(h, << p >>) : h \in Heads, p \in PartAlphabet}
      \cup (IF maxn >= 2 THEN {TPath(h, << p, q >>) : h \in {TId}, p \in PartAlphabet, q \in PartAlphabet} ELSE {})
 
+\* lazy folds (added after seeded change C03-4): a prefix consumer around `foreach` whose source continues with a bomb; too deep
+\* (7 nodes) for the exhaustive enumeration, so the shape is listed: in value mode and in path mode the bomb must not be reached
+LazyFolds ==
+  {c : c \in UNION {{TC1("first", f), TC2("limit", TNum(1), f), TC2("limit", TNum(1), TPipe(f, TAt(TNum(0))))} :
+        f \in {TForeach(TComma(a, b), "x", i, u) :
+                 a \in {TAt(TNum(0)), TIter}, b \in {TC0("error"), DivC, DivN, TC1("repeat", TId)}, i \in {TId, TAt(TNum(0))}, u \in {TId, TAt(TNum(0)), TPath(TId, << PIdxO(TNum(1)) >>)}}}}
+
 Programs(fam, maxn) ==
   CASE fam = "rec" -> RecPrograms(maxn)
     [] fam = "pathidx" -> PathIdxPrograms(maxn)
+    [] fam = "lazyp" -> UNION {G(fam, n, Sc0) : n \in 1..maxn} \cup LazyFolds
     [] OTHER -> UNION {G(fam, n, Sc0) : n \in 1..maxn}
 =============================================================================
